@@ -277,14 +277,22 @@ def c33 (cfg : Cl.Cfg) (tr : List CE) (tEnd : Nat) : List Viol :=
   -- slot and the PINGRESP (known finding): the orphaned keep-alive exchange can neither be answered nor stopped
   let takenOverBefore := fun (t : Nat) =>
     userPings.any fun tu => tu ≤ t && kaPings.any fun tk => tk < tu && tu ≤ tk + (cfg.rc + 1) * cfg.rd
+  -- the same single slot, the other way round (known finding): a keep-alive PINGREQ that starts while a
+  -- Ping() of the application is unanswered replaces it in the slot, and the clean-up of the application's
+  -- exchange then empties the slot: the keep-alive exchange can no longer be stopped
+  let startedDuringUserPing := fun (t : Nat) =>
+    kaPings.any fun tk => tk ≤ t && userPings.any fun tu => tu < tk && tk ≤ tu + (cfg.rc + 1) * cfg.rd
+  let suffix := fun (t : Nat) =>
+    if takenOverBefore t then "/user-ping-took-over-the-keepalive-exchange"
+    else if startedDuringUserPing t then "/keepalive-ping-started-during-a-user-ping"
+    else ""
   -- (b) none while asleep or disconnected
   let v1 := kaPings.flatMap fun t =>
     let s := stateAt t
     if (s == .asleep || s == .disconnected) && (nextStateAfter t).all (fun s2 => s2 != .active) &&
        -- the sampled state is exact only at event instants: a wake-up by timer shows up later
        !(states.any fun (ts, s2) => ts ≥ t && s2 == .awake && s == .asleep)
-    then [mk (if takenOverBefore t then "keepalive-ping-while-not-active/user-ping-took-over-the-keepalive-exchange"
-              else "keepalive-ping-while-not-active") s!"t={t} state={repr s}"] else []
+    then [mk ("keepalive-ping-while-not-active" ++ suffix t) s!"t={t} state={repr s}"] else []
   -- (a) at least one per period while active (as long as the client runs)
   let dn := min ((doneAt tr).getD tEnd) deadFrom
   let activeSpans : List (Nat × Nat) :=
@@ -298,9 +306,7 @@ def c33 (cfg : Cl.Cfg) (tr : List CE) (tEnd : Nat) : List Viol :=
       if y > x + period + 50 then
         -- a Ping() of the application while a keep-alive PINGREQ is unanswered takes over the single
         -- PINGREQ slot and the PINGRESP: the keep-alive exchange then runs out of retries
-        let stolen := takenOverBefore y
-        [mk (if stolen then "no-keepalive-ping-for-a-whole-period/user-ping-took-over-the-keepalive-exchange"
-             else "no-keepalive-ping-for-a-whole-period") s!"from={x} to={y}"]
+        [mk ("no-keepalive-ping-for-a-whole-period" ++ suffix y) s!"from={x} to={y}"]
       else []
   v1 ++ v2
 
